@@ -24,6 +24,56 @@ pub const STRAT_STARVE: u8 = 3;
 /// Site-targeted delay injection: a task about to execute a schedule point whose site id falls in the
 /// selected bucket is frozen for a window of decisions (a thread stalled at a precise program point).
 pub const STRAT_PAUSE: u8 = 4;
+/// Like PAUSE, but the frozen sites are 1-3 of the NAMED schedule points that mark the protocol's
+/// narrow windows (claim -> lock, scan -> timestamp, status -> rewind, publish -> release ...).
+pub const STRAT_WINDOW: u8 = 5;
+
+/// Named schedule points of the guarded hooks (stable under line shifts). The first group (weight 3)
+/// marks the windows the properties name; the rest are memory / cache / database points.
+pub const WINDOW_SITES: &[(&str, u32)] = &[
+    ("win.next.validation_claimed", 6),
+    ("win.validate.before_ts", 6),
+    ("win.validate.after_scan", 6),
+    ("win.validate.before_status", 6),
+    ("win.validate.before_notify", 2),
+    ("win.exec.claimed", 2),
+    ("win.exec.done", 6),
+    ("win.exec.before_status", 6),
+    ("win.exec.before_rewind", 6),
+    ("win.finality.before_lock", 6),
+    ("win.finality.before_ts", 6),
+    ("win.finality.before_publish", 6),
+    ("win.commit.before_take", 2),
+    ("win.commit.after_nonce", 2),
+    ("win.commit.before_publish", 6),
+    ("win.commit.before_dep_commit", 6),
+    ("win.rewind.after_ts", 6),
+    ("win.rewind.before_cursor", 6),
+    ("win.dep.add", 2),
+    ("win.dep.remove.scan", 2),
+    ("win.dep.commit", 2),
+    ("win.dep.key_tx.locked", 2),
+    ("win.hist.record", 2),
+    ("win.hist.invalidate", 2),
+    ("hist.scan", 1),
+    ("mv.publish", 2),
+    ("mv.mark_estimate", 2),
+    ("mv.remove_stale", 2),
+    ("mv.validate", 2),
+    ("mv.read.basic", 1),
+    ("mv.read.code", 1),
+    ("mv.read.slot", 1),
+    ("mv.read.reset", 1),
+    ("cache.basic.insert", 1),
+    ("cache.code.insert", 1),
+    ("cache.slot.known", 1),
+    ("cache.slot.insert", 2),
+    ("commit.account", 2),
+    ("commit.slots", 2),
+    ("db.basic", 1),
+    ("db.storage", 1),
+    ("db.code", 1),
+];
 
 #[derive(Clone, Debug, Default)]
 pub struct Trace {
@@ -74,6 +124,10 @@ pub struct SimScheduler {
     pause_window: u64,
     pause_budget: u32,
     pause_prob: u64,
+    window_sites: Vec<u32>,
+    /// hits of a selected site still to be let through before a task is frozen there
+    site_skips: Vec<(u32, u32, u32)>,
+    pause_skip_any: u32,
     frozen_until: Vec<u64>,
     frozen_site: Vec<u32>,
     replay_pos: usize,
@@ -110,12 +164,29 @@ impl SimScheduler {
         let (pause_modulus, pause_residue, pause_window, pause_budget) = if spec.strategy == STRAT_PAUSE {
             // p1 = bucket modulus, p2 = window length, p3 = number of freezes allowed
             let m = spec.p1.max(1);
-            (m, rng.below(m as u64) as u32, spec.p2 as u64, 64)
+            (m, rng.below(m as u64) as u32, spec.p2 as u64, *rng.pick(&[1u32, 1, 2, 4, 16]))
         } else {
             (1, 0, 0, 0)
         };
         // p3 = probability (per 1024) that a task reaching a selected site is frozen there
         let pause_prob = spec.p3.max(1) as u64;
+        let mut window_sites = Vec::new();
+        let (pause_window, pause_budget) = if spec.strategy == STRAT_WINDOW {
+            // p1 = number of named sites to freeze at, p2 = window length
+            let weights: Vec<u32> = WINDOW_SITES.iter().map(|(_, w)| *w).collect();
+            for _ in 0..spec.p1.max(1) {
+                let i = rng.pick_weighted(&weights);
+                window_sites.push(rt::fnv(WINDOW_SITES[i].0.as_bytes()));
+            }
+            (spec.p2 as u64, *rng.pick(&[1u32, 1, 2, 2, 4, 16]))
+        } else {
+            (pause_window, pause_budget)
+        };
+        // freeze at the (skip+1)-th hit of a selected site, not always at the first one
+        // (site, hits still to let through, freezes left at this site)
+        let site_skips: Vec<(u32, u32, u32)> =
+            window_sites.iter().map(|s| (*s, *rng.pick(&[0u32, 0, 0, 1, 2, 3, 5, 8]), *rng.pick(&[1u32, 1, 1, 2, 3]))).collect();
+        let pause_skip_any = *rng.pick(&[0u32, 0, 1, 2, 4, 8, 16, 32]);
         Self {
             spec,
             rng,
@@ -135,6 +206,9 @@ impl SimScheduler {
             pause_window,
             pause_budget,
             pause_prob,
+            window_sites,
+            site_skips,
+            pause_skip_any,
             frozen_until: Vec::new(),
             frozen_site: Vec::new(),
             replay_pos: 0,
@@ -247,14 +321,22 @@ impl Scheduler for SimScheduler {
                             decision_index >= self.starve_from &&
                             decision_index < self.starve_from + self.starve_len
                         {
-                            let filtered: Vec<usize> =
-                                cands.iter().copied().filter(|&t| rt::role_of(t) != self.starve_role).collect();
+                            // victim: one task (p1 >= 16 encodes task id p1 - 16) or every task of a role
+                            let victim_task = (self.starve_role >= 16).then(|| (self.starve_role - 16) as usize);
+                            let filtered: Vec<usize> = cands
+                                .iter()
+                                .copied()
+                                .filter(|&t| match victim_task {
+                                    Some(v) => t != v,
+                                    None => rt::role_of(t) != self.starve_role,
+                                })
+                                .collect();
                             if !filtered.is_empty() && filtered.len() < cands.len() {
                                 self.out.borrow_mut().starve_applied += 1;
                                 cands = filtered;
                             }
                         }
-                        if self.spec.strategy == STRAT_PAUSE {
+                        if self.spec.strategy == STRAT_PAUSE || self.spec.strategy == STRAT_WINDOW {
                             let mut kept: Vec<usize> = Vec::with_capacity(cands.len());
                             for &t in &cands {
                                 if self.frozen_until.len() <= t {
@@ -265,12 +347,40 @@ impl Scheduler for SimScheduler {
                                 if self.frozen_until[t] > decision_index && self.frozen_site[t] == site {
                                     continue; // still frozen at that point
                                 }
-                                if self.pause_budget > 0 &&
-                                    site != 0 &&
-                                    site % self.pause_modulus == self.pause_residue &&
+                                let selected = site != 0 &&
                                     self.frozen_site[t] != site &&
-                                    self.rng.below(1024) < self.pause_prob
-                                {
+                                    (if self.spec.strategy == STRAT_WINDOW {
+                                        self.window_sites.contains(&site)
+                                    } else {
+                                        site % self.pause_modulus == self.pause_residue
+                                    });
+                                let mut let_through = false;
+                                if selected && self.pause_budget > 0 {
+                                    if self.spec.strategy == STRAT_WINDOW {
+                                        if let Some(entry) = self.site_skips.iter_mut().find(|(s, _, _)| *s == site) {
+                                            if entry.1 > 0 {
+                                                entry.1 -= 1;
+                                                let_through = true;
+                                            } else if entry.2 == 0 {
+                                                let_through = true; // this site's freezes are used up
+                                            } else {
+                                                entry.2 -= 1;
+                                            }
+                                        }
+                                    } else if self.pause_skip_any > 0 {
+                                        self.pause_skip_any -= 1;
+                                        let_through = true;
+                                    }
+                                }
+                                if let_through {
+                                    // remember that this hit was counted, so the same pending operation
+                                    // is not counted again at the next decision
+                                    self.frozen_site[t] = site;
+                                    self.frozen_until[t] = 0;
+                                    kept.push(t);
+                                    continue;
+                                }
+                                if self.pause_budget > 0 && selected && self.rng.below(1024) < self.pause_prob {
                                     // freeze this task right before the selected program point
                                     self.pause_budget -= 1;
                                     self.frozen_until[t] = decision_index + self.pause_window;
